@@ -609,7 +609,7 @@ func (x *Exec) parse(ctx context.Context, query string) (wire.PreparedStatements
 			return x.runStmt(ctx, w, params, stc, idx)
 		}, opts...))
 	}
-	return out, nil
+	return wire.Prepared(out...), nil // the documented wrapper
 }
 
 // NullOf returns the Go value for a NULL cell of the given kind.
